@@ -20,7 +20,7 @@ var extModelDoc = map[string]string{}
 // packages whose functions are side-effect free as far as repo objects are concerned (result arbitrary, heap unchanged)
 var purePkgs = []string{"fmt", "strings", "strconv", "errors", "time", "math", "unicode", "unicode/utf8", "unicode/utf16", "context", "bytes", "sort", "slices", "maps",
 	"encoding/hex", "encoding/base64", "hash/maphash", "github.com/hashicorp/golang-lru/v2", "go.mongodb.org/mongo-driver", "go.mongodb.org/mongo-driver/v2", "math/rand", "math/bits", "reflect", "os", "regexp", "sync/atomic", "path",
-	"github.com/yorkie-team/yorkie/server/logging", "go.uber.org/zap", "github.com/yorkie-team/yorkie/server/profiling/prometheus",
+	"github.com/yorkie-team/yorkie/server/logging", "github.com/yorkie-team/yorkie/pkg/errors", "go.uber.org/zap", "github.com/yorkie-team/yorkie/server/profiling/prometheus",
 	"github.com/yorkie-team/yorkie/server/profiling", "google.golang.org/protobuf/types/known/timestamppb", "github.com/rs/xid",
 	"connectrpc.com/connect", "github.com/yorkie-team/yorkie/api/types/events"}
 
@@ -161,7 +161,16 @@ func (e *Exec) callVal(s *State, cc *ssa.CallCommon, args []Val, setRes func(*St
 		} else {
 			e.note("pure(assumed)", why)
 		}
-		setRes(s, e.symbolicResult(s, rt, "ret"))
+		res := e.symbolicResult(s, rt, "ret")
+		// constructors of the repository's status errors (pkg/errors) and connect.NewError never return nil
+		if strings.Contains(why, "yorkie/pkg/errors") || strings.HasSuffix(why, "connectrpc.com/connect.NewError") {
+			if ag, ok := res.(*Agg); ok && isErrorIface(sig.Results().At(0).Type()) {
+				s.assume("(and (not (= %s 0)) (not (= %s null)))", ag.F[0].(Scalar).T, ag.F[1].(Scalar).T)
+			} else if sc, ok := res.(Scalar); ok && sig.Results().Len() == 1 && sortOf(sig.Results().At(0).Type()) == "Ref" {
+				s.assume("(not (= %s null))", sc.T)
+			}
+		}
+		setRes(s, res)
 		return false
 	}
 	// ---- interface method call ----
